@@ -15,7 +15,7 @@ FIXTURES = sorted(glob.glob("/repo/tests/data/*.tjp"))
 # profile name, quick count, thorough count
 PLAN = {
     "C01": [("chain_subslot", 70, 2500), ("teams_alts", 30, 1000), ("alap_profile", 20, 800)],
-    "C02": [("calendars", 110, 4000)],
+    "C02": [("calendars", 90, 3500), ("dst_weekend", 40, 1500)],
     "C03": [("chain_subslot", 50, 2000), ("teams_alts", 50, 2000), ("alap_profile", 20, 800)],
     "C04": [("dags", 100, 4000), ("alap_profile", 20, 800), ("container_gate", 15, 600)],
     "C05": [("limits_profile", 90, 3500)],
